@@ -100,7 +100,7 @@ def _run(cond, raw, prods, v, bound, unbounded, vars_=enc.VARS, order=None):
 def c12_p2(t: P2, p: int, bound: int, unbounded: bool) -> bool:
     """
     pre: pinned(p=p, h0=t[0], l0=t[1], unbounded=unbounded)
-    pre: 0 <= p <= 2 and 0 <= bound <= 4
+    pre: ((0 <= p) & (p <= 2)) & ((0 <= bound) & (bound <= 4))
     pre: cfg_canonical(t, p, 2, 2, 2)
     pre: (not unbounded) or bound == 0
     post: _
@@ -113,7 +113,7 @@ def c12_p2(t: P2, p: int, bound: int, unbounded: bool) -> bool:
 def c12_p3(t: P3, p: int, bound: int, unbounded: bool, perm: int) -> bool:
     """
     pre: pinned(h0=t[0], l0=t[1], s0=t[2], h1=t[4], unbounded=unbounded, perm=perm)
-    pre: p == 3 and 0 <= bound <= 4 and 0 <= perm < 6
+    pre: (p == 3) & ((0 <= bound) & (bound <= 4)) & ((0 <= perm) & (perm < 6))
     pre: cfg_canonical(t, p, 2, 2, 2)
     pre: (not unbounded) or bound == 0
     post: _
@@ -169,7 +169,7 @@ SEQ_QUERIES = [
 def c12_sequence(t: P3, p: int, perm: int) -> bool:
     """
     pre: pinned(p=p, h0=t[0], l0=t[1], s0=t[2], h1=t[4], perm=perm)
-    pre: 2 <= p <= 3 and 0 <= perm < 6
+    pre: ((2 <= p) & (p <= 3)) & ((0 <= perm) & (perm < 6))
     pre: cfg_canonical(t, p, 2, 2, 2)
     post: _
     """
@@ -195,7 +195,7 @@ def _seq_chain_oracle(args, obs):
 def c12_chain(sd: bool, aa: bool, bmask: int, cmask: int, perm: int) -> bool:
     """
     pre: pinned(sd=sd, aa=aa, bmask=bmask, perm=perm)
-    pre: 0 <= bmask < 16 and 0 <= cmask < 8 and 0 <= perm < 6
+    pre: ((0 <= bmask) & (bmask < 16)) & ((0 <= cmask) & (cmask < 8)) & ((0 <= perm) & (perm < 6))
     post: _
     """
     from vlib.conds import chain
@@ -227,7 +227,7 @@ DOUBLING = [
 def c12_doubling(which: int, bound: int, unbounded: bool) -> bool:
     """
     pre: pinned(which=which, unbounded=unbounded)
-    pre: 0 <= which < 8 and 0 <= bound <= 9
+    pre: ((0 <= which) & (which < 8)) & ((0 <= bound) & (bound <= 9))
     pre: (not unbounded) or bound == 0
     post: _
     """
